@@ -166,8 +166,11 @@ def run(tier):
         qs = []
         for _ in range(k):
             s = rng.choice(base)
-            if rng.random() < 0.25:
+            x = rng.random()
+            if x < 0.25:
                 s = loopgen.corrupt(rng, s)[1]
+            elif x < 0.35:
+                s = rng.choice(loopgen.LEXBAD)      # rejected by the tokenizer, not the parser
             qs.append(s)
         batches.append(qs)
     pb = common.vh(["batch"], input="".join(json.dumps({"queries": q}) + "\n" for q in batches), timeout=900)
